@@ -28,6 +28,7 @@ LEVEL_TEXT = (
     "many-digit / tiny / huge parameter values, a parameter named like a generated derivative (dx1dt), "
     "functions at the edge of the subset (refuse or compute the function's value), helpers imported inside the "
     "function, roots of squares, generate - rebind helper - generate histories. "
+    ' Also: free-parameter lists that contain the parameter defined by an initial assignment, and builtin / reserved names as component names.'
 )
 LEVEL_NOTE = "trusted: node, rustc, CPython; the Julia-subset evaluator of mc/runners.py stands in for Julia (not installed); TypeScript annotations are stripped, not type-checked; the model's own RHS is the oracle (C01 checks it)"
 RULE = (
